@@ -15,6 +15,11 @@ pub trait KKTSolver<T: FloatT>: HasLinearSolverInfo {
     ) -> bool;
     fn update_P(&mut self, P: &CscMatrix<T>);
     fn update_A(&mut self, A: &CscMatrix<T>);
+    /// read-only view of the KKT values at the recorded P and A positions:
+    /// (KKT copy at P, KKT copy at A, LDL engine copy at P, LDL engine copy at A)
+    #[cfg(clarabel_verif)]
+    #[allow(clippy::type_complexity)]
+    fn verif_kkt_view(&self) -> (Vec<T>, Vec<T>, Option<Vec<T>>, Option<Vec<T>>);
 }
 
 pub trait HasLinearSolverInfo {
